@@ -27,6 +27,7 @@ package fingerprint
 
 //@ func NewFingerprintHeaderInjector :: headerName, fingerprintFunc -> i
 //@   props C01,C06
+//@   assigns nothing
 //@   ensures [C01:injector-wiring] i != nil && fresh(i) && i.HeaderName == headerName && i.FingerprintFunc == fingerprintFunc
 
 //@ func (*HTTP2FingerprintParam).HTTP2Fingerprint :: p, data -> fp, err
